@@ -142,7 +142,10 @@ class LMNN(MahalanobisMixin, TransformerMixin):
                     ' version 0.6.3 and will be removed in 0.7.0'
                     '', FutureWarning)
       n_neighbors = k
-    self.k = 'deprecated'  # To avoid no_attribute error
+    # keep the marker object that was passed: clone compares constructor
+    # parameters by identity, which a pickle round trip does not preserve
+    self.k = (
+        k if k == 'deprecated' else 'deprecated')
     self.n_neighbors = n_neighbors
     self.min_iter = min_iter
     self.max_iter = max_iter
